@@ -126,3 +126,32 @@ theorem beBytes_inj (k a b : Nat) (ha : a < 256 ^ k) (hb : b < 256 ^ k)
   simpa [beBytes] using h
 
 end Acra.Py
+
+namespace Acra.Py
+
+theorem leBytes_add (a b n : Nat) : leBytes (b + a) n = leBytes b n ++ leBytes a (n / 256 ^ b) := by
+  induction b generalizing n with
+  | zero => simp [leBytes]
+  | succ b ih =>
+    rw [show b + 1 + a = (b + a) + 1 by omega]
+    simp only [leBytes, ih, List.cons_append, Nat.pow_succ]
+    rw [Nat.div_div_eq_div_mul, Nat.mul_comm 256]
+
+theorem leBytes_mod (b n : Nat) : leBytes b (n % 256 ^ b) = leBytes b n := by
+  induction b generalizing n with
+  | zero => simp [leBytes]
+  | succ b ih =>
+    simp only [leBytes, Nat.pow_succ]
+    have h1 : n % (256 ^ b * 256) % 256 = n % 256 := by
+      rw [Nat.mul_comm, Nat.mod_mul_right_mod]
+    have h2 : n % (256 ^ b * 256) / 256 = (n / 256) % 256 ^ b := by
+      rw [Nat.mul_comm, Nat.mod_mul_right_div_self]
+    rw [h1, h2, ih]
+
+/-- a `(a+b)`-byte big-endian field is the `a` high bytes followed by the `b` low bytes -/
+theorem beBytes_add (a b n : Nat) :
+    beBytes (a + b) n = beBytes a (n / 256 ^ b) ++ beBytes b (n % 256 ^ b) := by
+  simp only [beBytes]
+  rw [Nat.add_comm, leBytes_add, List.reverse_append, leBytes_mod]
+
+end Acra.Py
